@@ -2,9 +2,20 @@
 """prints the prompt for a seeded-change sub-agent for property <ID> (only the property text + its scratch worktree)."""
 import json, sys
 pid = sys.argv[1]
+rnd = sys.argv[2] if len(sys.argv) > 2 else ""
 p = next(json.loads(l) for l in open('/verif/properties.jsonl') if json.loads(l)['id'] == pid)
-wt = f"/tmp/mut_{pid}"
-print(f"""You are a careful software engineer helping to evaluate a verification effort for the open-source Python library kuznia-rdzeni/transactron (a library for Amaranth HDL that elaborates Bluespec-style transactions and methods into hardware, plus FIFOs, memories, allocators...). You work ONLY in your own scratch git worktree of the repository at {wt} (already created for you, at the pinned commit). Do not look at or touch /repo or /verif or any other directory outside {wt} and /tmp/mutwork_{pid} (your private scratch dir for demonstrations; create it). The Python interpreter with all dependencies is /venv/bin/python; to make it import the library from your worktree run everything with `cd {wt}` and `PYTHONPATH={wt}` (check once with `PYTHONPATH={wt} /venv/bin/python -c "import transactron; print(transactron.__file__)"`).
+wt = f"/tmp/mut_{pid}{rnd}"
+prev = ""
+if rnd:
+    import os
+    pm = f"/verif/seeded/{pid}-a/meta.json"
+    if os.path.exists(pm):
+        prev = ("\n\nIMPORTANT: another engineer already produced the following change for this property; yours must be a DIFFERENT one "
+                "(a different code site or a different mechanism, and a different situation in which it manifests): "
+                + json.load(open(pm))["summary"] + "\nFor this round you only need to run the test files relevant to the code you touch "
+                "(not the full suite, which takes over half an hour on this shared machine); the full suite will be run by the lead afterwards, "
+                "so be conservative: if in doubt whether some existing test exercises your change, check by grepping the tests.")
+print(f"""You are a careful software engineer helping to evaluate a verification effort for the open-source Python library kuznia-rdzeni/transactron (a library for Amaranth HDL that elaborates Bluespec-style transactions and methods into hardware, plus FIFOs, memories, allocators...). You work ONLY in your own scratch git worktree of the repository at {wt} (already created for you, at the pinned commit). Do not look at or touch /repo or /verif or any other directory outside {wt} and /tmp/mutwork_{pid}{rnd} (your private scratch dir for demonstrations; create it). The Python interpreter with all dependencies is /venv/bin/python; to make it import the library from your worktree run everything with `cd {wt}` and `PYTHONPATH={wt}` (check once with `PYTHONPATH={wt} /venv/bin/python -c "import transactron; print(transactron.__file__)"`).
 
 Here is a semantic property of the library that is supposed to hold:
 
@@ -17,11 +28,13 @@ Here is a semantic property of the library that is supposed to hold:
 
 Your task: produce ONE realistic change to the library source under {wt}/transactron (a bug a maintainer could plausibly introduce in a refactoring or optimisation: a wrong index, a dropped condition, a swapped operand, an off-by-one, a missed corner case, two sites that each look fine alone...) that BREAKS this property while the code still imports/elaborates and the repository's existing test suite still passes. Prefer a change that needs something specific to manifest — a particular interleaving or call history, a multi-step sequence of operations, an unusual configuration or input value, or two cooperating sites — NOT one that ordinary use would expose at once (if every test of the component fails, the change is too blunt).
 
-Deliverables (put them in /tmp/mutwork_{pid}/):
+Deliverables (put them in /tmp/mutwork_{pid}{rnd}/):
  1. `patch.diff` — `git -C {wt} diff` of your change (source files under transactron/ only; do not edit tests).
- 2. `demo.py` (or `test_demo.py`) — a small self-contained demonstration (a pytest test or a script using amaranth.sim / the library's own testing helpers, or plain Python for pure-Python code) that FAILS (non-zero exit / failing assertion) with your change applied and PASSES on the unmodified code. Run it both ways and record the outputs (to switch use `git -C {wt} diff > /tmp/mutwork_{pid}/patch.diff; git -C {wt} apply -R /tmp/mutwork_{pid}/patch.diff` and `git -C {wt} apply /tmp/mutwork_{pid}/patch.diff`; do NOT use `git stash`: the stash is shared between all worktrees of the repository and other people work in sibling worktrees).
+ 2. `demo.py` (or `test_demo.py`) — a small self-contained demonstration (a pytest test or a script using amaranth.sim / the library's own testing helpers, or plain Python for pure-Python code) that FAILS (non-zero exit / failing assertion) with your change applied and PASSES on the unmodified code. Run it both ways and record the outputs (to switch use `git -C {wt} diff > /tmp/mutwork_{pid}{rnd}/patch.diff; git -C {wt} apply -R /tmp/mutwork_{pid}{rnd}/patch.diff` and `git -C {wt} apply /tmp/mutwork_{pid}{rnd}/patch.diff`; do NOT use `git stash`: the stash is shared between all worktrees of the repository and other people work in sibling worktrees).
  3. `meta.json` — {{"property": "{p['id']}", "summary": one sentence describing the change, "needs_to_manifest": what specific input/sequence/configuration exposes it, "tests_run": the pytest commands you ran and their results}}.
 
 Test suite: the full suite is `cd {wt} && PYTHONPATH={wt} /venv/bin/python -m pytest -q -p no:cacheprovider --timeout=900 -n 4` (1735 tests, takes several minutes; the machine is shared and loaded, so be patient and use a long timeout). First run only the test files relevant to the code you touch to iterate quickly, then run the full suite ONCE with your final change and report the exact summary line. All tests must pass with your change (if a few tests fail identically on the unmodified code because of machine load/timeouts, say so explicitly and show it).
+
+{prev}
 
 Keep it to a single small change (1–10 lines). Do not weaken or edit tests. When you are done, reply with the contents of meta.json, the patch, and the two outputs of the demonstration.""")
